@@ -12,7 +12,7 @@ _TOKEN = re.compile(r'''
     \s*(?:
       (?P<str>"(?:[^"\\]|\\.)*")
     | (?P<int>-?\d+)
-    | (?P<op><<|>>|\|->|:>|@@|[\[\]{}(),])
+    | (?P<op><<|>>|\|->|:>|@@|\.\.|[\[\]{}(),])
     | (?P<id>[A-Za-z_][A-Za-z0-9_!]*)
     )''', re.X)
 
@@ -80,6 +80,10 @@ class _P:
         if k == 'str':
             return _unescape(v)
         if k == 'int':
+            if self.peek() == ("op", ".."):
+                self.next()
+                k2, v2 = self.next()
+                return frozenset(range(int(v), int(v2) + 1))
             return int(v)
         if k == 'id':
             if v == 'TRUE':
